@@ -334,7 +334,7 @@ func (c *FnCtx) doSlice(st *State, x *ssa.Slice) bool {
 			c.safety(st, x, "slice", fmt.Sprintf("(<= %s %s)", mx, xv.Cap()), "slice max <= cap")
 		}
 		c.safety(st, x, "slice", fmt.Sprintf("(and (<= 0 %s) (<= %s %s) (<= %s %s))", lo, lo, hi, hi, mx), "slice bounds 0 <= lo <= hi <= cap")
-		st.env[x] = sliceVal(x.Type(), xv.Base(), "(+ "+xv.Off()+" "+lo+")", "(- "+hi+" "+lo+")", "(- "+mx+" "+lo+")")
+		st.env[x] = sliceVal(x.Type(), xv.Base(), plus(xv.Off(), lo), minus(hi, lo), minus(mx, lo))
 		_ = t
 	case *types.Basic: // string
 		if x.High != nil {
@@ -363,10 +363,10 @@ func (c *FnCtx) doSlice(st *State, x *ssa.Slice) bool {
 		if base == nil || base.Space != "M" {
 			c.note("slice of array inside struct abstracted")
 			r := c.allocRef(st, "arrslice")
-			st.env[x] = sliceVal(x.Type(), r, "0", "(- "+hi+" "+lo+")", "(- "+n+" "+lo+")")
+			st.env[x] = sliceVal(x.Type(), r, "0", minus(hi, lo), minus(n, lo))
 			return true
 		}
-		st.env[x] = sliceVal(x.Type(), base.Idx[0], lo, "(- "+hi+" "+lo+")", "(- "+n+" "+lo+")")
+		st.env[x] = sliceVal(x.Type(), base.Idx[0], lo, minus(hi, lo), minus(n, lo))
 	default:
 		c.errs = append(c.errs, "Slice on unsupported type")
 		return false
